@@ -1238,7 +1238,7 @@ func (e *c13env) unit(rng *Rng, n int) {
 		// descriptors
 		d := c13descriptor(rng)
 		if rng.Chance(8) {
-			d = append([]byte(nil), d[:rng.Pick(0, 4, 12, 24, 44, 48, 51, 52, 60)]...)
+			d = append([]byte(nil), d[:rng.Pick(0, 4, 12, 24, 44, 48, 51, 52, 55, 56, 60)]...)
 			d = d[:len(d):len(d)]
 		}
 		var m *insts.KernelCodeObjectMeta
@@ -1254,7 +1254,7 @@ func (e *c13env) unit(rng *Rng, n int) {
 		r.Case("c13 kd "+in, ans)
 		r.Checked("unit-descriptor")
 		if len(d) < 64 {
-			if (f != "") != (len(d) < 52) {
+			if (f != "") != (len(d) < 56) {
 				r.Failf("C13.unit.descriptor-short", in, "len=%d fault=%q", len(d), f)
 			}
 		} else if w := c13readKd(d).derived(nil, nil); ans != w.String() {
